@@ -1,4 +1,5 @@
 """C11 — morphometrics do not depend on pose or node numbering (spec/Morph.tla is a function of the parent relation and inter-node distances only)."""
+from harness import lib
 import random
 from harness.checks import morph
 
@@ -10,7 +11,7 @@ RULE = ("the lattice trees of C10, each concretised after one of six transformat
 
 
 def execute(c):
-    rng = random.Random(c["cid"] * 7 + 1)
+    rng = random.Random(lib.vid(c) * 7 + 1)
     return morph.observe(c, 2 + (c["motion"] % 6), rng, with_volume=True)
 
 
@@ -28,12 +29,12 @@ def run(ctx):
     ctx.run_cases("transformed", cases, path, execute, "Judge_Morph", keyfn, nontrivial, per_case_timeout=120)
 
     def execute_derived(c):
-        return morph.observe_derived(c, random.Random(c["cid"]))
+        return morph.observe_derived(c, random.Random(lib.vid(c)))
     sub = cases if ctx.tier != "quick" else cases[::3]
     ctx.run_cases("derived-from-a-measured-tree", sub, path, execute_derived, "Judge_Morph", lambda c, o, w: w + ":derived", nontrivial, per_case_timeout=120)
     if ctx.tier != "quick":      # every tree under a second transformation
         def execute2(c):
-            return morph.observe(c, 2 + ((c["motion"] + 3) % 6), random.Random(c["cid"]), with_volume=True)
+            return morph.observe(c, 2 + ((c["motion"] + 3) % 6), random.Random(lib.vid(c)), with_volume=True)
         ctx.run_cases("transformed-2", cases, path, execute2, "Judge_Morph", keyfn, nontrivial, per_case_timeout=120)
     ctx.assumptions += ["no library operation scales radii: for uniform scaling the executor scales coordinates and radii itself",
                         "rotations are applied by the executor (float64 Rodrigues matrix) so that C11 is decided independently of the library's own transforms (C12)",
@@ -47,6 +48,6 @@ def run(ctx):
 def replay(ctx, rec):
     c = rec["case"]
     p = ctx.write_cases("replay", [c])
-    ex = (lambda cc: morph.observe_derived(cc, random.Random(cc["cid"]))) if rec.get("stage", "").startswith("derived") else execute
+    ex = (lambda cc: morph.observe_derived(cc, random.Random(lib.vid(cc)))) if rec.get("stage", "").startswith("derived") else execute
     ctx.run_cases("replay", [c], p, ex, "Judge_Morph", keyfn)
     return ctx.finish(rule="replay of one recorded case")
